@@ -182,3 +182,101 @@ def decorate_contract(ck, ld):
                     bad.append((combo, kind, got, want))
     ck.enumerations.append(("decorate.matches", n, len(bad), bad[:2]))
     ck.struct("decorate.matches", not bad, "_decorate_drf_files deviates from its contract on %s" % (bad[:2],), {"no_input": False})
+
+
+# ---------------------------------------------------------------------------------------------------------------------
+def walk_contract(ck, ld):
+    """ilsdrf against the contract of _yield_matching_files (modular) on virtual trees: top-down walk in sorted (reversed) directory
+    order, channel = directory holding a properties file, its property files first and according to their own flags (None = follow the
+    data flag), one call of the channel lister per channel iff a data kind is requested with exactly the query's arguments, timestamped
+    subdirectories never descended, recursive=False stops below the start directory."""
+    import datetime as _dt
+    real = {k: ld.__dict__[k] for k in ("os", "_yield_matching_files")}
+    trees = {
+        "nested": {"": (["a", "b", "2017-01-01T00-00-00"], ["junk.txt"]),
+                   "a": (["2017-01-01T00-00-00", "metadata", "z"], ["drf_properties.h5"]),
+                   "a/2017-01-01T00-00-00": ([], ["rf@1483228800.000.h5"]),
+                   "a/metadata": (["2017-01-01T00-00-00"], ["dmd_properties.h5"]),
+                   "a/metadata/2017-01-01T00-00-00": ([], ["metadata@1483228800.h5"]),
+                   "a/z": ([], ["note.txt"]),
+                   "b": (["2017-01-01T00-00-00"], ["drf_properties.h5", "dmd_properties.h5"]),
+                   "b/2017-01-01T00-00-00": ([], ["rf@1483228800.000.h5", "x@1483228800.h5"]),
+                   "2017-01-01T00-00-00": ([], ["rf@1483228800.000.h5"])},
+        "channel_root": {"": (["2017-01-01T00-00-00", "sub"], ["metadata.h5"]),
+                         "2017-01-01T00-00-00": ([], ["rf@1483228800.000.h5"]),
+                         "sub": ([], ["dmd_properties.h5"])},
+        "empty": {"": ([], [])},
+    }
+    S0, E0 = _dt.datetime(2017, 1, 1, tzinfo=_dt.timezone.utc), _dt.datetime(2017, 1, 2, tzinfo=_dt.timezone.utc)
+    import re
+    is_ts = lambda d: re.fullmatch(r"\\d{4}-\\d{2}-\\d{2}T\\d{2}-\\d{2}-\\d{2}", d) is not None
+    DRFP, DMDP = {"drf_properties.h5", "metadata.h5"}, {"dmd_properties.h5", "metadata.h5"}
+    n = 0
+    bad = []
+    for tname, tree in trees.items():
+        top = "/T"
+        for inc_drf, inc_dmd, pdrf, pdmd, recursive, reverse, window in itertools.product((True, False), (True, False), (None, True, False), (None, True, False),
+                                                                                          (True, False), (False, True), (False, True)):
+            calls = []
+
+            def walk(path):
+                rel0 = os.path.relpath(path, top)
+                rel0 = "" if rel0 == "." else rel0
+                stack = [rel0]
+                # faithful top-down os.walk: the caller may edit dirs in place
+                def rec(rel):
+                    dirs, files = tree.get(rel, ([], []))
+                    dirs, files = list(dirs), list(files)
+                    yield (os.path.join(top, rel) if rel else top, dirs, files)
+                    for d_ in list(dirs):
+                        for x in rec((rel + "/" + d_) if rel else d_):
+                            yield x
+                return rec(rel0)
+
+            def lister(root, dirs, props, include_drf, include_dmd, starttime=None, endtime=None, reverse=False):
+                calls.append((root, list(dirs), list(props), include_drf, include_dmd, starttime, endtime, reverse))
+                dirs[:] = [d_ for d_ in dirs if not is_ts(d_)]        # contract: timestamped subdirectories are consumed
+                yield os.path.join(root, "<data of %s>" % os.path.relpath(root, top))
+            ld.os = types.SimpleNamespace(path=os.path, walk=walk, listdir=lambda p: [], sep=os.sep)
+            ld._yield_matching_files = lister
+            kw = dict(recursive=recursive, reverse=reverse, include_drf=inc_drf, include_dmd=inc_dmd, include_drf_properties=pdrf, include_dmd_properties=pdmd)
+            if window:
+                kw.update(starttime=S0, endtime=E0)
+            try:
+                try:
+                    got = list(ld.ilsdrf(top, **kw))
+                except Exception as e:
+                    got = "raised %r" % (e,)
+            finally:
+                for kk, v in real.items():
+                    ld.__dict__[kk] = v
+            n += 1
+            # expected, from the property
+            eff_pdrf = inc_drf if pdrf is None else pdrf
+            eff_pdmd = inc_dmd if pdmd is None else pdmd
+            want, want_calls = [], []
+
+            def visit(rel):
+                dirs, files = tree.get(rel, ([], []))
+                root = os.path.join(top, rel) if rel else top
+                props = [f for f in files if f in DRFP | DMDP]
+                descend = list(dirs)
+                if props:
+                    pl = sorted((os.path.join(root, f) for f in props if (f in DRFP and eff_pdrf) or (f in DMDP and eff_pdmd)), reverse=reverse)
+                    want.extend(pl)
+                    if inc_drf or inc_dmd:
+                        want_calls.append((root, sorted(dirs), sorted(props), inc_drf, inc_dmd))
+                        want.append(os.path.join(root, "<data of %s>" % os.path.relpath(root, top)))
+                        descend = [d_ for d_ in dirs if not is_ts(d_)]
+                if recursive:
+                    for d_ in sorted(descend, reverse=reverse):
+                        visit((rel + "/" + d_) if rel else d_)
+            visit("")
+            got_calls = [(c[0], sorted(c[1]), sorted(c[2]), c[3], c[4]) for c in calls]
+            EP = _dt.datetime(1970, 1, 1, tzinfo=_dt.timezone.utc)
+            okw = all((c[5], c[6]) == ((S0 - EP, E0 - EP) if window else (None, None)) and c[7] is reverse for c in calls)
+            if got != want or got_calls != want_calls or not okw:
+                bad.append((tname, kw if not window else {k: v for k, v in kw.items() if k not in ("starttime", "endtime")}, got if got != want else "calls %s" % (got_calls,), want if got != want else want_calls))
+    ck.enumerations.append(("walk.channels_properties_and_order", n, len(bad), bad[:2]))
+    ck.struct("walk.channels_properties_and_order", not bad, "ilsdrf deviates from the listing contract in %d of %d cases, e.g. %s" % (len(bad), n, bad[:2]), {"no_input": False})
+    ck.add_function(pyload.source_info(ld, "ilsdrf"))
